@@ -262,6 +262,11 @@ func (ex *Exec) finishPath(res *PathResult) {
 		return
 	}
 	r, m := ex.w.solver.CheckModel(ex.pc, nil, ex.symOrder, "")
+	if r == Unknown {
+		// a model for the translator validation is worth a one-shot attempt: on a
+		// slow or loaded machine the incremental core gives up on heavy path conditions
+		r, m, _ = ex.w.fallback(ex.pc, nil, ex.symOrder, "", 30)
+	}
 	if r != Sat {
 		return
 	}
